@@ -53,7 +53,12 @@ func main() {
 	tier := flag.String("tier", "quick", "quick|thorough")
 	out := flag.String("out", ".", "output directory")
 	replay := flag.String("replay", "", "file with case lines to run instead of generating")
+	oracle := flag.Bool("oracle", false, "run as the flate oracle coprocess of the model runner")
 	flag.Parse()
+	if *oracle {
+		oracleMain()
+		return
+	}
 	if flag.NArg() != 1 {
 		fmt.Fprintln(os.Stderr, "usage: wsharness [flags] <suite>")
 		os.Exit(2)
